@@ -1,9 +1,56 @@
+import SwayVerif.Model.Lock
 import SwayVerif.Driver.Util
-/-! Driver for C21 (stub — replace `answer`; keep `run`). -/
+import SwayVerif.Driver.LockCommon
+/-!
+Driver for C21. Cases (see `harness/src/bin/sv_c21.rs`):
+  `pin <s> X.. ;; ok <pinned> | err | panic`
+  `lock L.. X.. ;; ok G.. | err | panic`
+  `toml <bytes> ;; tomlerr | panic`      (TOML layer rejected the text — outside the model)
+`agree` = model outcome (class and value) equals the implementation's; `prop` = implementation did not panic.
+-/
 namespace SwayVerif.Driver.C21
-open SwayVerif.Driver
+open SwayVerif.Lock SwayVerif.Driver SwayVerif.Driver.LockCommon
 
-def answer (_line : String) : String := "unimplemented agree=0 prop=0"
+def variantOf : Res Pinned → String
+  | .ok .member => "member"
+  | .ok (.git ..) => "git"
+  | .ok (.path _) => "path"
+  | .ok (.ipfs _) => "ipfs"
+  | .ok (.registry ..) => "reg"
+  | _ => "none"
+
+def answer (line : String) : String :=
+  let (c, i) := splitCase line
+  let implCls := (i.head?.bind clsOfToken)
+  let prop := match implCls with
+    | some o => c21PropHolds o
+    | none => false
+  match c with
+  | "pin" :: rest =>
+    match (do let s ← str; let t ← extTable; pure (s, t) : P _).run rest with
+    | some ((s, tbl), []) =>
+      let m := parsePinned (extOf tbl) s
+      let ms := match m with
+        | .ok p => join ("ok" :: showPinned p)
+        | .err => "err"
+        | .panic => "panic"
+      s!"{ms} agree={b01 (ms == join i)} prop={b01 prop} kind=pin cls={showCls m.cls} variant={variantOf m}"
+    | _ => "bad-case agree=0 prop=0"
+  | "lock" :: rest =>
+    match (do let l ← records; let t ← extTable; pure (l, t) : P _).run rest with
+    | some ((pkgs, tbl), []) =>
+      let m := toGraph (extOf tbl) pkgs
+      let ms := match m with
+        | .ok g => join ("ok" :: showGraph g)
+        | .err => "err"
+        | .panic => "panic"
+      let ne := match m with
+        | .ok g => sizeClass g.edges.length
+        | _ => "-"
+      s!"{ms} agree={b01 (ms == join i)} prop={b01 prop} kind=lock cls={showCls m.cls} pkgs={sizeClass pkgs.length} edges={ne}"
+    | _ => "bad-case agree=0 prop=0"
+  | ["toml", _] => s!"skip agree=1 prop={b01 prop} kind=toml cls=toml"
+  | _ => "bad-case agree=0 prop=0"
 
 def run : IO Unit := do
   lineLoop (← IO.getStdin) (← IO.getStdout) answer
